@@ -27,7 +27,7 @@ def writers(ctx, crate, adt_suffix, fields):
     return out
 
 
-def column_discipline(ctx, f, obj, line_f, col_f, idx_f, prefix):
+def column_discipline(ctx, f, obj, line_f, col_f, idx_f, prefix, col_helpers=()):
     """checks on one owner method: `obj.line += ..` => later `obj.col = ..`; `obj.col += X` => X from encode_utf16"""
     ob = ctx.ob
     obs = []
@@ -44,11 +44,11 @@ def column_discipline(ctx, f, obj, line_f, col_f, idx_f, prefix):
     problems = []
     for n in col_incs:
         r = sir.expr_str(n["r"]).replace(" ", "")
-        if "encode_utf16" not in r:
+        if "encode_utf16" not in r and "len_utf16()" not in r:
             problems.append("column advanced by `%s`: not a UTF-16 length" % r[:60])
     for n in col_sets:
         r = sir.expr_str(n["r"]).replace(" ", "")
-        if r not in ("0", "prev_utf16_col") and "encode_utf16" not in r and not r.startswith("position_offset"):
+        if r not in ("0", "prev_utf16_col") and "encode_utf16" not in r and "len_utf16()" not in r and not r.startswith("position_offset"):
             problems.append("column set to `%s`: not a UTF-16 length" % r[:60])
     # a line increment must be accompanied by a column reset: either in the same branch (`if c == '\n' {line += 1; col = 0}`)
     # or, when the increment is unconditional (`line += count`), in a branch taken whenever count > 0
@@ -69,7 +69,8 @@ def column_discipline(ctx, f, obj, line_f, col_f, idx_f, prefix):
         if not (same or guarded):
             problems.append("line advanced by `%s` without resetting the column on that path" % amount)
     if idx_f:
-        if idx_moves and not (col_incs or col_sets):
+        via_helper = any(n.get("k") == "mcall" and sir.expr_str(n["recv"]) == obj and n["m"] in col_helpers for n in nodes)
+        if idx_moves and not (col_incs or col_sets or via_helper):
             problems.append("cursor index moves but the column never does")
     obs.append(ob("%s/%s" % (prefix, f.qual), not problems, where,
                   "; ".join(problems) if problems else "%d line increments each with a column reset, %d column increments all from encode_utf16, %d column assignments" % (len(line_incs), len(col_incs), len(col_sets)),
@@ -78,35 +79,65 @@ def column_discipline(ctx, f, obj, line_f, col_f, idx_f, prefix):
 
 
 def cursor_rule(ctx):
+    import guards as gd
     ob = ctx.ob
     tc = ctx.tc
     obs = []
     w = writers(ctx, "glass_easel_template_compiler", "ParseState", ("cur_index", "line", "utf16_col"))
-    allowed = {"parse::ParseState::new", "parse::ParseState::try_parse", "parse::ParseState::skip_bytes", "parse::ParseState::next", "parse::ParseState::skip_whitespace"}
+    # the cursor belongs to ParseState: only its own methods may write it (a private helper of the type is one of them)
     for fld, ws in w.items():
-        foreign = sorted(x for x in ws if x not in allowed)
+        foreign = sorted(x for x in ws if not x.startswith("parse::ParseState::"))
         obs.append(ob("C16.cursor/owners/%s" % fld, bool(ws) and not foreign, "parse/mod.rs", "ParseState.%s is written by %s" % (fld, sorted(ws)) + ("" if not foreign else " - foreign writers %s" % foreign)))
-    for name in ("skip_bytes", "next", "skip_whitespace"):
+    col_writers = set(x.split("::")[-1] for x in w.get("utf16_col", {}))
+    movers = sorted((set(x.split("::")[-1] for x in w.get("cur_index", {})) | col_writers | set(x.split("::")[-1] for x in w.get("line", {}))) - {"new", "try_parse"})
+    for name in movers:
         fs = [f for f in tc.fns if f.name == name and f.base == "ParseState" and f.body]
         if len(fs) != 1:
             obs.append(ob("C16.cursor/discipline/%s" % name, False, "parse/mod.rs", "ParseState::%s not found" % name))
             continue
-        obs += column_discipline(ctx, fs[0], "self", "line", "utf16_col", "cur_index", "C16.cursor/discipline")
+        obs += column_discipline(ctx, fs[0], "self", "line", "utf16_col", "cur_index", "C16.cursor/discipline", col_helpers=col_writers - {name})
+    if len(movers) < 3:
+        obs.append(ob("C16.floor/cursor-movers", False, "parse/mod.rs", "only %d methods move the cursor (floor 3)" % len(movers)))
     tp = [f for f in tc.fns if f.name == "try_parse" and f.base == "ParseState" and f.body]
     if tp:
         f = tp[0]
-        saved = {}
+        fields = ("cur_index", "line", "utf16_col")
+        saved = {}   # field -> token that identifies where it was saved
         for n in sir.walk(f.body):
-            if n.get("k") == "local" and n.get("init") is not None and n["init"].get("k") == "field" and sir.expr_str(n["init"]["base"]) == "self":
-                saved[n["init"]["name"]] = n["pat"].get("name")
+            if n.get("k") == "local" and n.get("init") is not None:
+                ini = n["init"]
+                if ini.get("k") == "field" and sir.expr_str(ini["base"]) == "self" and n["pat"].get("k") == "p_ident":
+                    saved[ini["name"]] = n["pat"]["name"]
+                elif ini.get("k") == "tuple" and n["pat"].get("k") == "p_ident":
+                    for i_, e_ in enumerate(ini["elems"]):
+                        if e_.get("k") == "field" and sir.expr_str(e_["base"]) == "self":
+                            saved[e_["name"]] = "%s.%d" % (n["pat"]["name"], i_)
+                elif ini.get("k") == "tuple" and n["pat"].get("k") == "p_tuple":
+                    for pe, e_ in zip(n["pat"]["elems"], ini["elems"]):
+                        if e_.get("k") == "field" and sir.expr_str(e_["base"]) == "self" and pe.get("k") == "p_ident":
+                            saved[e_["name"]] = pe["name"]
         restored = {}
+        restore_nodes = []
         for n in sir.walk(f.body):
-            if n.get("k") == "assign" and n["l"].get("k") == "field" and sir.expr_str(n["l"]["base"]) == "self":
-                restored[n["l"]["name"]] = sir.expr_str(n["r"])
-        ok = all(saved.get(x) and restored.get(x) == saved.get(x) for x in ("cur_index", "line", "utf16_col"))
-        cond = [sir.expr_str(n["cond"]).replace(" ", "") for n in sir.walk(f.body) if n.get("k") == "if"]
-        ok = ok and cond == ["ret.is_none()"]
-        obs.append(ob("C16.cursor/try_parse", ok, ctx.where(f), "saved %s, restored %s under %s" % (saved, restored, cond),
+            if n.get("k") == "assign":
+                l, r = n["l"], n["r"]
+                if l.get("k") == "field" and sir.expr_str(l["base"]) == "self":
+                    restored[l["name"]] = sir.expr_str(r)
+                    restore_nodes.append(n)
+                elif l.get("k") == "tuple":
+                    rs = sir.expr_str(r)
+                    for i_, e_ in enumerate(l["elems"]):
+                        if e_.get("k") == "field" and sir.expr_str(e_["base"]) == "self":
+                            restored[e_["name"]] = "%s.%d" % (rs, i_) if r.get("k") == "path" else (sir.expr_str(r["elems"][i_]) if r.get("k") == "tuple" and i_ < len(r["elems"]) else "?")
+                    restore_nodes.append(n)
+        ok = all(saved.get(x) and restored.get(x) == saved.get(x) for x in fields)
+        # restored exactly when the closure's result is None
+        G = gd.guards_of(f.body)
+        res_names = set(n["pat"]["name"] for n in sir.walk(f.body) if n.get("k") == "local" and n["pat"].get("k") == "p_ident" and n.get("init") is not None and n["init"].get("k") == "call" and sir.expr_str(n["init"]["f"]) in f.param_names())
+        m_res = lambda e: (e.get("k") == "call" and sir.expr_str(e["f"]) in f.param_names()) or (sir.strip_ref(e).get("k") == "path" and sir.strip_ref(e).get("s") in res_names) or any(x.get("k") == "path" and x.get("s") in res_names for x in sir.walk(e))
+        states = [gd.option_state(G.get(id(n), []), m_res) for n in restore_nodes]
+        ok = ok and bool(restore_nodes) and all(st_ == "none" for st_ in states)
+        obs.append(ob("C16.cursor/try_parse", ok, ctx.where(f), "saved %s, restored %s when the attempt returned %s" % (saved, restored, states),
                       witness=None if ok else "a failed look-ahead across a line break leaves line/column ahead of the index"))
     pos = [f for f in tc.fns if f.name == "position" and f.base == "ParseState" and f.body]
     if pos:
